@@ -1,1 +1,487 @@
-pub fn oracle(_rng: &mut Rng, _tier: &str, _rep: &mut Report) {}
+// ---------------------------------------------------------------------------------------
+// implementation-level oracles (included into backend.rs); no reference to the Lean model:
+// every expectation is computed from the trait contracts (C17) on the real objects.
+
+/// a live backend plus the replay text of everything done to it so far
+struct Obj<W: Wd> {
+    b: Option<Box<dyn Dyn<W>>>,
+    desc: String,
+}
+
+impl<W: Wd> Obj<W> {
+    fn new(kind: &str, w: u32, init: &str) -> Option<Self> {
+        let seg: Vec<&str> = init.split(' ').collect();
+        match do_init::<W>(kind, &seg) {
+            Init::Ok(b) => Some(Obj { b: Some(b), desc: format!("{} {:x} | {}", kind, w, init) }),
+            _ => None,
+        }
+    }
+    fn op(&mut self, op: Op<W>) -> String {
+        self.desc.push_str(" | ");
+        self.desc.push_str(&show_op(&op));
+        match self.b.take() {
+            None => "dead".into(),
+            Some(b) => match guarded(move || b.op(&op)) {
+                Ok((s, nb)) => {
+                    self.b = Some(nb);
+                    s
+                }
+                Err(class) => class.into(),
+            },
+        }
+    }
+    fn dup(&self) -> Obj<W> {
+        Obj { b: self.b.as_ref().map(|b| b.dup()), desc: format!("{} | (clone)", self.desc) }
+    }
+    /// `(tag, words, number)` of the `raw` dump
+    fn raw(&mut self) -> (String, Vec<u128>, u128) {
+        let s = self.op(Op::Raw);
+        let t: Vec<&str> = s.split(' ').collect();
+        if t.len() == 3 {
+            (t[0].to_string(), parse_list(t[1]).unwrap_or_default(), parse_hex(t[2]).unwrap_or(0))
+        } else {
+            (s.clone(), vec![], 0)
+        }
+    }
+}
+
+const RW_KINDS: [&str; 6] = [
+    "backend.cursor-owned", "backend.cursor-box", "backend.cursor-mut",
+    "backend.rev-cursor", "backend.rev-cursor-box", "backend.rev-cursor-mut",
+];
+
+fn rand_cursor_init(rng: &mut Rng, w: u32) -> (String, usize, usize) {
+    let len = (rng.next() % 9) as usize;
+    let pos = match rng.next() % 5 {
+        0 => 0,
+        1 => len,
+        _ => rng.below(len as u128 + 1) as usize,
+    };
+    (format!("at {} {:x}", show_list(gen_ws(rng, w, len)), pos), len, pos)
+}
+
+fn rand_op_parsed<W: Wd>(rng: &mut Rng, w: u32, class: u32, lenhint: usize) -> Op<W> {
+    let s = random_op(rng, w, class, lenhint);
+    let seg: Vec<&str> = s.split(' ').collect();
+    parse_op::<W>(&seg).expect("generated op parses")
+}
+
+/// free space of a cursor computed from its dump (not from `space_left`)
+fn free_of(tag: &str, len: usize, pos: usize) -> usize {
+    if tag == "rev" { pos } else { len - pos }
+}
+
+fn oracle_w<W: Wd>(rng: &mut Rng, w: u32, iters: usize, rep: &mut Report) {
+    let wd = |x: u128| -> W { from_u128::<W>(x) };
+    for it in 0..iters {
+        // ------------------------------------------------------------------ LIFO
+        {
+            let kinds = ["backend.vec", "backend.smallvec", RW_KINDS[0], RW_KINDS[1], RW_KINDS[2], RW_KINDS[3], RW_KINDS[4], RW_KINDS[5]];
+            let kind = *rng.pick(&kinds);
+            let is_stack = kind == "backend.vec" || kind == "backend.smallvec";
+            let init = if is_stack {
+                let n = (rng.next() % 7) as usize;
+                format!("data {}", show_list(gen_ws(rng, w, n)))
+            } else {
+                rand_cursor_init(rng, w).0
+            };
+            let mut o = Obj::<W>::new(kind, w, &init).unwrap();
+            // wander to an arbitrary reachable state first
+            for _ in 0..(rng.next() % 6) {
+                let op = rand_op_parsed::<W>(rng, w, if is_stack { 0 } else { 1 }, 8);
+                o.op(op);
+            }
+            let (tag, buf0, n0) = o.raw();
+            let free = if is_stack { 6 } else { free_of(&tag, buf0.len(), n0 as usize) };
+            let k = rng.below(free as u128 + 1) as usize;
+            let ws = gen_ws(rng, w, k);
+            let mut ok = true;
+            for &x in &ws {
+                rep.eval("C17");
+                if o.op(Op::Write(wd(x))) != "ok" {
+                    rep.fail("C17", format!("{} => write within the free space ({} of {}) did not succeed", o.desc, k, free));
+                    ok = false;
+                    break;
+                }
+            }
+            if ok {
+                for &x in ws.iter().rev() {
+                    rep.eval("C17");
+                    let r = o.op(Op::ReadS);
+                    if r != hex(x) {
+                        rep.fail("C17", format!("{} => stack read returned {} expected {:x} (LIFO)", o.desc, r, x));
+                        ok = false;
+                        break;
+                    }
+                }
+            }
+            if ok {
+                let (tag1, buf1, n1) = o.raw();
+                rep.eval("C17");
+                let same = if is_stack { buf1 == buf0 } else { n1 == n0 && buf1.len() == buf0.len() && tag1 == tag };
+                if !same {
+                    rep.fail("C17", format!("{} => state after k writes and k stack reads is not the state before", o.desc));
+                }
+                rep.sample("C17", || o.desc.clone());
+            }
+            rep.count(&format!("C17.lifo.{}", kind));
+        }
+        // ------------------------------------------------------------------ FIFO (cursors)
+        {
+            let kind = *rng.pick(&RW_KINDS);
+            let (init, _, _) = rand_cursor_init(rng, w);
+            let mut o = Obj::<W>::new(kind, w, &init).unwrap();
+            for _ in 0..(rng.next() % 6) {
+                let op = rand_op_parsed::<W>(rng, w, 1, 8);
+                o.op(op);
+            }
+            let (tag, buf0, n0) = o.raw();
+            let free = free_of(&tag, buf0.len(), n0 as usize);
+            let k = rng.below(free as u128 + 1) as usize;
+            let ws = gen_ws(rng, w, k);
+            let p = o.op(Op::Pos);
+            let mut ok = true;
+            for &x in &ws {
+                if o.op(Op::Write(wd(x))) != "ok" {
+                    rep.fail("C17", format!("{} => write within the free space did not succeed", o.desc));
+                    ok = false;
+                    break;
+                }
+            }
+            if ok {
+                rep.eval("C17");
+                let r = o.op(Op::Seek(parse_hex(&p).unwrap() as usize));
+                if r != "ok" {
+                    rep.fail("C17", format!("{} => seeking back to a reported position failed", o.desc));
+                    ok = false;
+                }
+            }
+            if ok {
+                for &x in ws.iter() {
+                    rep.eval("C17");
+                    let r = o.op(Op::ReadQ);
+                    if r != hex(x) {
+                        rep.fail("C17", format!("{} => queue read returned {} expected {:x} (FIFO)", o.desc, r, x));
+                        break;
+                    }
+                }
+            }
+            rep.count(&format!("C17.fifo.{}", kind));
+        }
+        // ------------------------------------------------------------------ FIFO + fusedness (iterators)
+        {
+            let n = (rng.next() % 8) as usize;
+            let script = gen_script(rng, w, n);
+            let fallible = rng.chance(1, 2);
+            let mut o = Obj::<W>::new("backend.iter", w, &format!("{} {}", if fallible { "fallible" } else { "infallible" }, script)).unwrap();
+            let toks: Vec<&str> = if script == "-" { vec![] } else { script.split(',').collect() };
+            let mut expect: Vec<String> = Vec::new();
+            for t in &toks {
+                if *t == "_" {
+                    break;
+                }
+                expect.push(if *t == "x" { if fallible { "readerr".into() } else { "x".into() } } else { t.to_string() });
+            }
+            let total = toks.len() + 3;
+            for i in 0..total {
+                rep.eval("C17");
+                let rem = o.op(Op::RemQ);
+                let r = if rng.chance(1, 2) { o.op(Op::ReadS) } else { o.op(Op::ReadQ) };
+                let e = expect.get(i).cloned().unwrap_or("none".into());
+                if r != e {
+                    rep.fail("C17", format!("{} => read {} expected {} (in order, then end-of-data forever)", o.desc, r, e));
+                    break;
+                }
+                let erem = expect.len().saturating_sub(i);
+                if rem != hex(erem as u128) {
+                    rep.fail("C17", format!("{} => remaining {} but {} more reads yield data", o.desc, rem, erem));
+                    break;
+                }
+            }
+            rep.count("C17.iter");
+        }
+        // ------------------------------------------------------------------ fusedness (vec, cursors)
+        {
+            let all: Vec<&str> = ["backend.vec", "backend.smallvec"].iter().copied().chain(CUR_KINDS.iter().map(|k| k.0)).collect();
+            let kind = *rng.pick(&all);
+            let is_stack = kind == "backend.vec" || kind == "backend.smallvec";
+            let init = if is_stack {
+                let n = (rng.next() % 5) as usize;
+                format!("data {}", show_list(gen_ws(rng, w, n)))
+            } else {
+                rand_cursor_init(rng, w).0
+            };
+            let mut o = Obj::<W>::new(kind, w, &init).unwrap();
+            let queue = !is_stack && rng.chance(1, 2);
+            let rd = |o: &mut Obj<W>| if queue { o.op(Op::ReadQ) } else { o.op(Op::ReadS) };
+            let mut reads = 0;
+            while rd(&mut o) != "none" {
+                reads += 1;
+                if reads > 20 {
+                    rep.fail("C17", format!("{} => more reads succeed than the buffer has words", o.desc));
+                    break;
+                }
+            }
+            for _ in 0..(1 + rng.next() % 4) {
+                rep.eval("C17");
+                // queries in between must not revive the source
+                if rng.chance(1, 3) {
+                    o.op(if queue { Op::RemQ } else { Op::RemS });
+                }
+                let r = rd(&mut o);
+                if r != "none" {
+                    rep.fail("C17", format!("{} => read returned {} after end-of-data", o.desc, r));
+                    break;
+                }
+            }
+            rep.count(&format!("C17.fused.{}", kind));
+        }
+        // ------------------------------------------------------------------ remaining / space_left are exact
+        {
+            let all: Vec<&str> = ["backend.vec", "backend.smallvec"].iter().copied().chain(CUR_KINDS.iter().map(|k| k.0)).collect();
+            let kind = *rng.pick(&all);
+            let is_stack = kind == "backend.vec" || kind == "backend.smallvec";
+            let init = if is_stack {
+                let n = (rng.next() % 7) as usize;
+                format!("data {}", show_list(gen_ws(rng, w, n)))
+            } else {
+                rand_cursor_init(rng, w).0
+            };
+            let mut o = Obj::<W>::new(kind, w, &init).unwrap();
+            for _ in 0..(rng.next() % 8) {
+                let op = rand_op_parsed::<W>(rng, w, if is_stack { 0 } else { 1 }, 8);
+                o.op(op);
+            }
+            for queue in [false, true] {
+                if is_stack && queue {
+                    continue;
+                }
+                let rem = o.op(if queue { Op::RemQ } else { Op::RemS });
+                let exh = o.op(if queue { Op::ExhQ } else { Op::ExhS });
+                let mut c = o.dup();
+                let mut n = 0u128;
+                loop {
+                    let r = if queue { c.op(Op::ReadQ) } else { c.op(Op::ReadS) };
+                    if r == "none" || n > 64 {
+                        break;
+                    }
+                    n += 1;
+                }
+                rep.eval("C17");
+                if rem != hex(n) {
+                    rep.fail("C17", format!("{} => remaining_{} = {} but {:x} reads succeed", o.desc, if queue { "q" } else { "s" }, rem, n));
+                }
+                let e: Vec<&str> = exh.split(' ').collect();
+                if e.len() == 2 && (e[0] != format!("{}", n == 0) || (e[1] == "false" && n == 0)) {
+                    rep.fail("C17", format!("{} => is_exhausted/maybe_exhausted = {} but {:x} reads succeed", o.desc, exh, n));
+                }
+            }
+            let sl = o.op(Op::SpaceLeft);
+            let full = o.op(Op::Full);
+            if sl != UNSUP {
+                let mut c = o.dup();
+                let mut n = 0u128;
+                while c.op(Op::Write(wd(0x5a))) == "ok" && n <= 64 {
+                    n += 1;
+                }
+                rep.eval("C17");
+                if sl != hex(n) {
+                    rep.fail("C17", format!("{} => space_left = {} but {:x} writes succeed", o.desc, sl, n));
+                }
+                let f: Vec<&str> = full.split(' ').collect();
+                if f.len() == 2 && (f[0] != format!("{}", n == 0) || (f[1] == "false" && n == 0)) {
+                    rep.fail("C17", format!("{} => is_full/maybe_full = {} but {:x} writes succeed", o.desc, full, n));
+                }
+                rep.count(&format!("C17.space_left.{}", kind));
+            } else if full == "false" {
+                rep.eval("C17");
+                let mut c = o.dup();
+                if c.op(Op::Write(wd(1))) != "ok" {
+                    rep.fail("C17", format!("{} => maybe_full = false but the write failed", o.desc));
+                }
+            }
+            rep.count(&format!("C17.remaining.{}", kind));
+        }
+        // ------------------------------------------------------------------ seek laws
+        {
+            let all: Vec<&str> = ["backend.vec", "backend.smallvec"].iter().copied().chain(CUR_KINDS.iter().map(|k| k.0)).collect();
+            let kind = *rng.pick(&all);
+            let is_stack = kind == "backend.vec" || kind == "backend.smallvec";
+            let init = if is_stack {
+                let n = (rng.next() % 7) as usize;
+                format!("data {}", show_list(gen_ws(rng, w, n)))
+            } else {
+                rand_cursor_init(rng, w).0
+            };
+            let mut o = Obj::<W>::new(kind, w, &init).unwrap();
+            for _ in 0..(rng.next() % 6) {
+                let op = rand_op_parsed::<W>(rng, w, if is_stack { 0 } else { 1 }, 8);
+                o.op(op);
+            }
+            let raw0 = o.raw();
+            let p = parse_hex(&o.op(Op::Pos)).unwrap();
+            rep.eval("C17");
+            if o.op(Op::Seek(p as usize)) != "ok" || o.raw() != raw0 {
+                rep.fail("C17", format!("{} => seek(pos()) does not restore the state", o.desc));
+            }
+            let len = raw0.1.len() as u128;
+            let q: u128 = match rng.next() % 6 {
+                0 => 0,
+                1 => len,
+                2 => len + 1,
+                3 => *rng.pick(&FAR),
+                _ => rng.below(len + 3),
+            };
+            let r = o.op(Op::Seek(q as usize));
+            let raw1 = o.raw();
+            rep.eval("C17");
+            if (r == "ok") != (q <= len) {
+                rep.fail("C17", format!("{} => seek {:x} with len {:x} returned {}", o.desc, q, len, r));
+            } else if r != "ok" {
+                if raw1 != raw0 {
+                    rep.fail("C17", format!("{} => a refused seek changed the state", o.desc));
+                }
+            } else {
+                let now = parse_hex(&o.op(Op::Pos)).unwrap();
+                let good = if is_stack { raw1.1[..] == raw0.1[..q as usize] && now == q } else { raw1.1 == raw0.1 && now == q };
+                if !good {
+                    rep.fail("C17", format!("{} => after seek {:x}: pos {:x}, contents changed unexpectedly", o.desc, q, now));
+                }
+            }
+            rep.count(&format!("C17.seek.{}", kind));
+        }
+        // ------------------------------------------------------------------ into_reversed is observationally a no-op
+        {
+            let kind = *rng.pick(&RW_KINDS);
+            let (init, _, _) = rand_cursor_init(rng, w);
+            let mut a = Obj::<W>::new(kind, w, &init).unwrap();
+            for _ in 0..(rng.next() % 5) {
+                let op = rand_op_parsed::<W>(rng, w, 1, 8);
+                a.op(op);
+            }
+            let mut b = a.dup();
+            if b.op(Op::IntoReversed) != "ok" {
+                rep.fail("C17", format!("{} => into_reversed failed", b.desc));
+            }
+            let steps = rng.next() % 26;
+            let mut ok = true;
+            for _ in 0..steps {
+                let op: Op<W> = match rng.next() % 12 {
+                    0..=2 => Op::ReadS,
+                    3..=5 => Op::ReadQ,
+                    6..=7 => Op::Write(wd(gen_word(rng, w))),
+                    8 => { let n = (rng.next() % 4) as usize; Op::Extend(gen_ws(rng, w, n).into_iter().map(wd).collect()) }
+                    9 => if rng.chance(1, 2) { Op::RemS } else { Op::RemQ },
+                    10 => if rng.chance(1, 2) { Op::ExhS } else { Op::ExhQ },
+                    _ => if rng.chance(1, 2) { Op::SpaceLeft } else { Op::Full },
+                };
+                let ra = a.op(op.clone());
+                let rb = b.op(op);
+                rep.eval("C17");
+                if ra != rb {
+                    rep.fail("C17", format!("{} => {} on the cursor but {} on its into_reversed twin", a.desc, ra, rb));
+                    ok = false;
+                    break;
+                }
+            }
+            if ok {
+                // positions mirror each other, and reversing back gives the same object
+                let (ta, ba, pa) = a.raw();
+                let (_, bb, pb) = b.raw();
+                rep.eval("C17");
+                let mut rev = bb.clone();
+                rev.reverse();
+                if pa + pb != ba.len() as u128 || rev != ba {
+                    rep.fail("C17", format!("{} => twin is not the mirror image: {:?}@{:x} vs {:?}@{:x}", a.desc, ba, pa, bb, pb));
+                }
+                b.op(Op::IntoReversed);
+                if b.raw() != (ta, ba, pa) {
+                    rep.fail("C17", format!("{} => into_reversed twice is not the identity", b.desc));
+                }
+                rep.sample("C17", || b.desc.clone());
+            }
+            rep.count(&format!("C17.reverse.{}", kind));
+        }
+        // ------------------------------------------------------------------ C20: buf_mut misuse ends in a value or a panic
+        {
+            let kind = rng.pick(&CUR_KINDS).0;
+            let (init, len, _pos) = rand_cursor_init(rng, w);
+            let mut o = Obj::<W>::new(kind, w, &init).unwrap();
+            let shrink: Op<W> = if rng.chance(1, 2) {
+                Op::BmTruncate(rng.below(len as u128 + 1) as usize)
+            } else {
+                let n = rng.below(len as u128 + 2) as usize;
+                Op::BmSet(gen_ws(rng, w, n).into_iter().map(wd).collect())
+            };
+            o.op(shrink);
+            for _ in 0..6 {
+                let op = rand_op_parsed::<W>(rng, w, 1, len);
+                let r = o.op(op);
+                rep.eval("C20");
+                if r.starts_with("panic:") {
+                    rep.count("C20.panicked_cleanly");
+                    break;
+                }
+            }
+            if it < 3 {
+                rep.sample("C20", || o.desc.clone());
+            }
+        }
+        // ------------------------------------------------------------------ callbacks receive every word once, in order
+        {
+            let mut fa: Vec<u128> = (0..(rng.next() % 3)).map(|_| rng.below(10)).collect();
+            fa.sort();
+            fa.dedup();
+            let mut o = Obj::<W>::new("backend.callback", w, &format!("fallible {}", show_list(fa.clone()))).unwrap();
+            let mut expect: Vec<u128> = Vec::new();
+            let mut calls = 0u128;
+            for _ in 0..(rng.next() % 8) {
+                if rng.chance(2, 3) {
+                    let x = gen_word(rng, w);
+                    let r = o.op(Op::Write(wd(x)));
+                    let fails = fa.contains(&calls);
+                    calls += 1;
+                    rep.eval("C17");
+                    if !fails {
+                        expect.push(x);
+                    }
+                    if (r == "ok") == fails {
+                        rep.fail("C17", format!("{} => write returned {} but the callback {}", o.desc, r, if fails { "failed" } else { "succeeded" }));
+                    }
+                } else {
+                    let n = (rng.next() % 4) as usize;
+                    let ws = gen_ws(rng, w, n);
+                    let r = o.op(Op::Extend(ws.iter().map(|&x| wd(x)).collect()));
+                    let mut er = "ok".to_string();
+                    for (i, &x) in ws.iter().enumerate() {
+                        let fails = fa.contains(&calls);
+                        calls += 1;
+                        if fails {
+                            er = format!("cberr {:x}", ws.len() - i - 1);
+                            break;
+                        }
+                        expect.push(x);
+                    }
+                    rep.eval("C17");
+                    if r != er {
+                        rep.fail("C17", format!("{} => extend_from_iter returned {} expected {}", o.desc, r, er));
+                    }
+                }
+            }
+            let (_, log, n) = o.raw();
+            rep.eval("C17");
+            if log != expect || n != calls {
+                rep.fail("C17", format!("{} => callback saw {:?} ({} calls), expected {:?} ({} calls)", o.desc, log, n, expect, calls));
+            }
+            rep.count("C17.callback");
+        }
+    }
+}
+
+pub fn oracle(rng: &mut Rng, tier: &str, rep: &mut Report) {
+    let iters = if tier == "thorough" { 20000 } else { 1500 };
+    oracle_w::<u8>(rng, 8, iters, rep);
+    oracle_w::<u16>(rng, 16, iters, rep);
+    oracle_w::<u32>(rng, 32, iters, rep);
+    oracle_w::<u64>(rng, 64, iters, rep);
+}
